@@ -90,6 +90,12 @@ fn run_recv(sid: &[u8], s: &SenderOTSeed, choices: &[u8; L_BYTES], tape: &[u8]) 
     catch_unwind(AssertUnwindSafe(|| {
         let mut round1 = Round1Output::default();
         let mut ext = bytemuck::allocation::zeroed_box::<ReceiverExtendedOutput>();
+        // the extended output is a caller-supplied buffer that the function overwrites completely: what it held before
+        // the call (zeroes, all-ones, a pattern as left by an earlier run; picked by the tape so that a replay takes the
+        // same one) must not show in the result.  Round1Output is different: the function XORs into u, x and t, so a
+        // zeroed message is its precondition (every caller in the workspace passes Round1Output::default()).
+        let fill = [0u8, 0xff, 0xa5, 0][tape.first().map(|b| (*b & 3) as usize).unwrap_or(0)];
+        if fill != 0 { bytemuck::bytes_of_mut(&mut *ext).iter_mut().for_each(|b| *b = fill); }
         ext.choices = *choices;
         let mut rng = TapeRng::new(tape.to_vec());
         SoftSpokenOTReceiver::process(sid, s, &mut round1, &mut ext, &mut rng);
